@@ -145,6 +145,24 @@ OP(vd_conv_zin)   { NEED(F->vd && F->vdo); return vnadata_convert(F->vd, F->vdo,
 OP(vd_set_fz0)    { NEED(F->vd); return vnadata_set_fz0(F->vd, 1, 1, 75.0); }
 OP(vdf_set_z0)    { NEED(F->vdf); return vnadata_set_z0(F->vdf, 0, 60.0); }
 OP(vdf_grow)      { NEED(F->vdf); return vnadata_resize(F->vdf, VPT_S, 3, 3, 4); }
+OP(vdf_trim)      { NEED(F->vdf); return vnadata_resize(F->vdf, VPT_UNDEF, 2, 2, 1); }
+OP(vdf_touch)
+{
+    /* every z0 entry of every frequency, read and written back */
+    NEED(F->vdf);
+    int n = vnadata_get_frequencies(F->vdf);
+    int p = vnadata_get_rows(F->vdf);
+    if (vnadata_get_columns(F->vdf) > p)
+	p = vnadata_get_columns(F->vdf);
+    for (int f = 0; f < n; ++f)
+	for (int k = 0; k < p; ++k) {
+	    double complex z = vnadata_get_fz0(F->vdf, f, k);
+	    if (creal(z) == HUGE_VAL ||
+		    vnadata_set_fz0(F->vdf, f, k, z) != 0)
+		return -1;
+	}
+    return 0;
+}
 OP(vd_add_f)      { NEED(F->vd); return vnadata_add_frequency(F->vd, 9.0e9); }
 OP(vdf_add_f)     { NEED(F->vdf); return vnadata_add_frequency(F->vdf, 9.0e9); }
 OP(vdf_init)      { NEED(F->vdf); return vnadata_init(F->vdf, VPT_T, 2, 2, 2); }
@@ -188,7 +206,7 @@ static const struct { const char *name; op_fn *fn; } ops[] = {
     O(addcal_A5), O(merr_T16), O(add_T16), O(merr_A5), O(gprop_set), O(cprop_set), O(gprop_del),
     O(cprop_del_all), O(cprop_subtree), O(vd_grow), O(vd_shrink),
     O(vd_conv_inpl), O(vd_conv_zin), O(vd_set_fz0), O(vdf_set_z0),
-    O(vdf_grow), O(vd_add_f), O(vdf_add_f), O(vdf_init), O(vd_init_bad),
+    O(vdf_grow), O(vdf_trim), O(vdf_touch), O(vd_add_f), O(vdf_add_f), O(vdf_init), O(vd_init_bad),
     O(vd_save_load), O(vdf_save_load), O(vd_load_bad), O(vd_load_s2p),
     O(vp_set_deep), O(vp_del_item), O(vp_del_key), O(vp_scalar_root),
     O(vp_insert), O(vp_copy), O(vp_import), O(vp_bad_lookup),
